@@ -30,6 +30,12 @@ func ReadFile(r io.Reader) (File, []string, error) {
 		tk := tr.Token()
 		switch tk.kind {
 		case tokenKindImport:
+			if nextRecordOpCode != 0 {
+				return f, warnings, readError(tk, "imports may not have attached op codes")
+			}
+			if nextRecordBitFlags {
+				return f, warnings, readError(tk, "imports may not use bitflags")
+			}
 			toks, err := expectNext(tr, tokenKindStringLiteral)
 			if err != nil {
 				return f, warnings, err
